@@ -236,6 +236,10 @@ fn main() {
         eprintln!("INCONCLUSIVE primitive self-test failed: {e}");
         std::process::exit(2);
     }
+    if let Err(e) = world::selftest() {
+        eprintln!("INCONCLUSIVE simulator self-test failed: {e}");
+        std::process::exit(2);
+    }
     let a = Args::parse(&argv[2..]);
     let start = Instant::now();
     let mut acc = Acc::default();
